@@ -716,7 +716,7 @@ harnesses! {
     { @nostub quorum_vote_5_5, "C11", thorough, unwind = 8,
       "JointConfig::vote_result for halves of 5 and 5 voters: symbolic ids, symbolic yes/no/missing per id; won/lost/pending oracle",
       |s| c11::vote_result(s, 5, 5) }
-    { @nostub quorum_ci_8_0_cap9, "C11", quick, unwind = 11,
+    { @nostub quorum_ci_8_0_cap9, "C11", quick, unwind = 20,
       "committed_index for a single set of 8 voters with ids 1..=8 (the heap-allocated path for more than 7 voters; built with the 9-slot container shim): symbolic acked indexes below 2^12, some ids unknown to the indexer, counting oracle (plain quorum commit)",
       |s| c11::committed_index_concrete_ids(s, 8, 0) }
     { @nostub quorum_ci_8_0_symids_cap9, "C11", thorough, unwind = 11,
@@ -1041,6 +1041,25 @@ harnesses! {
     { apply_demote_self_then_ack, "C20,C09", quick, unwind = 8,
       "leader applies AddLearnerNode(itself) (still tracked as learner) and receives an ack that commits: no panic",
       |s| c12::apply_then_ack(s, &L21_BOTH, &[(2, 1)], 2, 2) }
+    // ---------------- C13 / C10 component level: Progress, uncommitted size ----------------
+    { progress_probe, "C13,C10", quick, unwind = 8,
+      "Progress in Probe state, fully symbolic matched/next/flags: maybe_update, maybe_decr_to (probing terminates: next_idx never rises, stays above matched), is_paused, is_snapshot_caught_up, become_probe/replicate/snapshot",
+      |s| c13::progress_ops(s, 0, 0) }
+    { progress_replicate_1, "C13,C10", quick, unwind = 8,
+      "Progress in Replicate state with one inflight append (window 2), symbolic fields",
+      |s| c13::progress_ops(s, 1, 1) }
+    { progress_replicate_full, "C13,C10", quick, unwind = 8,
+      "Progress in Replicate state with a full window",
+      |s| c13::progress_ops(s, 1, 2) }
+    { progress_snapshot, "C13,C10,C15", quick, unwind = 8,
+      "Progress in Snapshot state with symbolic pending_snapshot: caught up exactly when the snapshot index is acknowledged; probing resumes after it",
+      |s| c13::progress_ops(s, 2, 0) }
+    { uncommitted_two, "C13", quick, unwind = 8,
+      "uncommitted-size accounting with symbolic limit / outstanding size / leadership tail index, proposal of two entries (2 and 1 bytes)",
+      |s| c13::uncommitted(s, &F30, &[2, 1]) }
+    { uncommitted_empty, "C13", quick, unwind = 8,
+      "same with an empty payload (never refused)",
+      |s| c13::uncommitted(s, &F30, &[0]) }
     // ---------------- C14 RaftLog ----------------
     { log_append_dup, "C14,C05,C01", quick, unwind = 8,
       "RaftLog::maybe_append on log terms [1,2,3] (2 stable + 1 unstable), prev=(1,1), entries [2,3] (duplicate); symbolic committed/applied/persisted/m.commit; compared with the sequence model",
